@@ -42,6 +42,12 @@ RULE += (' ' +
          'values, twins that print differently; map patches shorter than '
          'width x height; generated derived flag enums that add and redefine '
          'flags (printed names resolved by attribute lookup). ')
+RULE += (' ' +
+         'Added in later rounds: unhashable and bytes/bytearray field '
+         'values, twins that print differently; map patches shorter than '
+         'width x height; generated derived flag enums that add and redefine '
+         'flags (printed names resolved by attribute lookup). Round 11: '
+         'every enum asked for the name of unhashable values. ')
 LEVEL_TEXT = ('Model-based testing of the tracker objects over generated '
               'packet histories, and algebraic-law testing of the helper '
               'value types, exhaustive over flag values 0..255 for every '
